@@ -25,7 +25,7 @@ import vlib
 META = {
     "category": "proof",
     "technique": "invariant proof over all interleavings of a small-step model (Coq) + trace acceptance of the real code (controlled scheduler, exhaustive small scopes) + direct oracle",
-    "text": "Coq theorems (SkipList/Props_C17.v, closed under the global context) over small-step models of skipfree::SkipList and listfree::List: for every number of threads, every program and EVERY schedule at the granularity of single get_next/set_next/cas_next steps (sequential consistency assumed) the level chains are strictly sorted and gap-free, level l+1 is a sub-chain of level l, in-flight inserts keep valid predecessor/successor hypotheses, nothing panics; hence no returned insert is ever missed by a later contains or full iteration, iteration is strictly increasing and exactly-once, contains/seek/first/next/prev return the nearest key of the key set at their last read, iterator positions are consistent from one call to the next; the prepend list yields the content at its head load (newest first, once); with the F4 repair a held iterator never touches freed nodes. The models are tied to the code by replaying recorded real multi-threaded runs (every atomic operation hooked) in the extracted model, which must predict every event, result and the final content, plus a model-free direct oracle.",
+    "text": "Coq theorems (SkipList/Props_C17.v, closed under the global context) over small-step models of skipfree::SkipList and listfree::List: for every number of threads, every program and EVERY schedule at the granularity of single get_next/set_next/cas_next steps (sequential consistency assumed) the level chains are strictly sorted and gap-free, level l+1 is a sub-chain of level l, in-flight inserts keep valid predecessor/successor hypotheses, nothing panics; hence no returned insert is ever missed by a later contains or full iteration, iteration is strictly increasing and exactly-once, contains/seek/first/next/prev return the nearest key of the key set at their last read, iterator positions are consistent from one call to the next; the prepend list yields the content at its head load (newest first, once); with the F4 repair a held iterator never touches freed nodes. The models are tied to the code by replaying recorded real multi-threaded runs (every atomic operation hooked) in the extracted model, which must predict every event, result and the final content, plus a model-free direct oracle. Stage sk-iso: one thread, signed keys (some ordering below K::default(), the head sentinel's key): the same program on SkipList<i64> and shifted onto SkipList<u64>, both against a sorted-list reference cursor.",
     "note": "EVERY TRACED RUN IS SERIALISED: in sk-sched/ls-sched the gate lets exactly one thread run between two atomic operations and in sk-free/ls-free a global lock is held around each one, so the harness ENFORCES sequential consistency there and treats each hooked operation (get_next, set_next, cas_next, head load, head CAS) as atomic - an operation that is hooked as one step but is not atomic in the source (e.g. a CAS rewritten as load+store) is invisible to the traced stages. Only the untraced stages (sk-stress, sk-hammer, ls-stress, ls-hammer, sk-own: hooks off or registry only, real threads) execute with the hardware's real memory ordering, and that hardware is x86-64 (TSO) only; they are judged by the direct oracle alone. Trusted: Coq kernel; extraction (ExtrOcamlBasic) + ocaml/skiplist driver; harness c17 (scheduler, hooks, oracle); the add-only cfg(blue_verif) hooks in skipfree/listfree. Assumed: sequential consistency of the atomic operations (Release/Acquire/SeqCst on the hardware's memory model is not modelled); Rust's memory safety outside the modelled ownership discipline; the allocator never reuses a live node's address. Keys are u64 in the harness, unbounded N in the model (only compared). Lock-freedom/termination is not claimed.",
 }
 
